@@ -1,6 +1,8 @@
 package main
 
 import (
+	"regexp"
+	"strconv"
 	"fmt"
 	"go/ast"
 	"go/token"
@@ -43,12 +45,52 @@ func newEngine(repo, mirror string) *Engine {
 		targetOf: map[*Contract]*ssa.Function{}, bounds: map[*ssa.Parameter]*Term{}, typeTags: map[string]int{}, typeByString: map[string]types.Type{}, tables: map[string]*Term{}, maxDepth: 8, genSrc: map[string]string{}}
 }
 
+var errLineRe = regexp.MustCompile(`^(.*vc_[a-z0-9_]+_verif\.go):(\d+)`)
+
 func (e *Engine) load() error {
 	cs, err := parseContracts(e.repo, e.mirror)
 	if err != nil {
 		return err
 	}
 	e.cs = cs
+	for round := 0; ; round++ {
+		err := e.loadOnce()
+		if err == nil || round >= 4 {
+			return err
+		}
+		// contracts whose generated code does not type-check against the current source (signature or field
+		// changed) are set aside as undecided; everything else is still verified
+		disabled := 0
+		for _, msg := range e.loadErrs {
+			m := errLineRe.FindStringSubmatch(msg)
+			if m == nil {
+				continue
+			}
+			line, _ := strconv.Atoi(m[2])
+			var best *Contract
+			for _, cl := range cs.ByPkg {
+				for _, c := range cl {
+					if c.Kind != "spec" && c.File == m[1] && c.Line <= line && (best == nil || c.Line > best.Line) {
+						best = c
+					}
+				}
+			}
+			if best != nil && best.Disabled == "" {
+				best.Disabled = msg
+				disabled++
+			}
+		}
+		if disabled == 0 {
+			return err
+		}
+		e.loadErrs = nil
+		e.pkgs = map[string]*ssa.Package{}
+		e.lpkgs = map[string]*packages.Package{}
+	}
+}
+
+func (e *Engine) loadOnce() error {
+	cs := e.cs
 	overlay := map[string][]byte{}
 	var patterns []string
 	for dir := range cs.ByPkg {
@@ -104,7 +146,7 @@ func (e *Engine) load() error {
 		}
 		for _, c := range cl {
 			c.PkgPath = sp.Pkg.Path()
-			if c.Kind != "func" {
+			if c.Kind != "func" || c.Disabled != "" {
 				continue
 			}
 			fn := e.lookupTarget(sp, c)
@@ -181,6 +223,10 @@ func (e *Engine) typeTag(t types.Type) int {
 
 // makeLimit: the largest element count a make([]T, n) may be given (allocation limit of DESIGN C15).
 func (e *Engine) makeLimit(et types.Type) uint64 {
+	k := types.TypeString(et, func(p *types.Package) string { return "" })
+	if v, ok := e.cs.AllocLimits[k]; ok {
+		return v
+	}
 	return 1 << 32
 }
 
@@ -193,9 +239,7 @@ func (e *Engine) constTable(g *ssa.Global) *Term {
 	return nil
 }
 
-func (fr *Frame) ioModel(name string, fn *ssa.Function, args []Val, pos token.Pos, resType types.Type) (Val, bool) {
-	return Val{}, false
-}
+
 
 // ---- verification units ----
 
@@ -206,6 +250,7 @@ type Unit struct {
 	Assumes  []*Term
 	Err      string // unsupported / binding error
 	Missing  bool
+	MissingWhy string
 	Notes    []string
 	Opaque   map[string]int
 	TermUnproved []string
@@ -264,6 +309,12 @@ func (e *Engine) verifyUnit(ct *Contract) (u *Unit) {
 	if ct.Kind == "spec" {
 		return nil
 	}
+	if ct.Disabled != "" {
+		u.Missing = true
+		u.Err = ""
+		u.MissingWhy = "contract does not type-check against the current source: " + ct.Disabled
+		return u
+	}
 	if ct.Flags["assumed"] != "" || ct.Flags["trusted"] != "" {
 		u.Assumed = true
 		return u
@@ -309,7 +360,7 @@ func (e *Engine) verifyUnit(ct *Contract) (u *Unit) {
 		c.inputs = append(c.inputs, InputVar{Name: p.Name(), Type: p.Type(), V: v})
 		c.ghosts[p.Name()] = v
 	}
-	st := &State{m: map[string]*Term{}, epoch: newEpoch("pre", nil)}
+	st := &State{m: map[string]*Term{"alive": c.alive0}, epoch: newEpoch("pre", nil)}
 	c.pre = st.clone()
 	mk := &markerInfo{mode: "verify", target: target, contract: ct}
 	if target == nil {
